@@ -437,8 +437,8 @@ def rule_A1(text):
             cond = parts[0].strip()
         out.append(text[j:m.start()])
         # the condition is evaluated in exec mode (its own overflow/bounds obligations included), then must be proved
-        out.append('{ let verif_cond: bool = %s; assert(verif_cond); }' % cond)
         n += 1
+        out.append('let verif_cond_%d: bool = %s; assert(verif_cond_%d);' % (n, cond, n))
         j = cp + 1
         if text[j:j + 1] == ';':
             j += 1
